@@ -238,11 +238,11 @@ func init() {
 	}
 	nilVal := func() (any, string) { return nil, "nil" }
 	for _, s := range []struct {
-		name                          string
-		val                           func() (any, string)
-		cancelSub, cancelPub, preSub  bool
-		q, t                          int
-		desc                          string
+		name                         string
+		val                          func() (any, string)
+		cancelSub, cancelPub, preSub bool
+		q, t                         int
+		desc                         string
 	}{
 		{"N-pub", vals, false, false, false, 2, 3, "publish 1 / \"s\" to three subscriptions of the key (one unbuffered with a receiver thread, one context-guarded) plus one under another key; registration and map orders enumerated"},
 		{"N-pub-subcancel", vals, true, false, false, 1, 2, "same, the guarded subscription's context is cancelled at any point of the publish"},
